@@ -672,6 +672,11 @@ func (w *world) prep(rs *reqSpec) (*http.Request, [][]string) {
 }
 
 func (w *world) do(rs reqSpec) M {
+	if (T.prop == "C18" || T.prop == "C07") && w.step%3 == 2 {
+		// what a path-stripping reverse proxy adds: the cookie attributes stay the fixed ones
+		rs.hdrs = append(rs.hdrs, [2]string{"X-Forwarded-Prefix", "/internal/tools/grafana"}, [2]string{"X-Forwarded-Uri", "/internal/tools/grafana" + rs.rawURI})
+		T.stat("handler.requests-with-proxy-prefix")
+	}
 	r, clientHdrs := w.prep(&rs)
 	if r == nil {
 		return nil
